@@ -54,6 +54,23 @@ static Plan gen_history(Rng& r, int tier, std::string const& focus)
         if (p.fk == F_ZERO || p.fk == F_CONST) p.fk = F_POLY;
     }
     add_extreme_draws(r, p, 0.5);
+    if (tier && r.chance(0.000004))
+    {
+        // more calls than fit into 32 bits: counters, N (N - 1) and friends
+        p.variant = 10;
+        p.integ = PLAIN;
+        p.nt = NT_D;
+        p.eng = E_SCRIPT64;
+        p.dims = 1;
+        p.acc = 0;
+        p.dists.clear();
+        p.fk = F_SIGN;
+        p.fmag = 0;
+        p.faults.clear();
+        p.cbk = 1;
+        p.stop = -1;
+        p.calls.assign(1, (1ULL << 32) + 2 + r.below(5));
+    }
     return p;
 }
 
@@ -61,7 +78,14 @@ static void exec_history(Plan const& p, Report& rep)
 {
     Session s(p, rep);
     s.fresh();
-    RunCtl const ctl = ctl_from_plan(p);
+    RunCtl ctl = ctl_from_plan(p);
+    if (p.variant == 10)
+    {
+        // giant run: no call logs; the oracles that need only the result fields still run
+        ctl.log_calls = false;
+        ctl.log_text = false;
+        rep.probes["giant-run-2^32"]++;
+    }
     RunOut const out = s.run(p.calls, ctl);
     if (out.threw) rep.fail("C12", "exception", key_of(p), out.what);
     ChkptView const v = s.w->view();
@@ -184,6 +208,23 @@ static Plan gen_lattice(Rng& r, int tier, std::string const&)
     }
 
     if (r.chance(0.04)) p.fmag = tiny_exponent(r, p.nt) + 6;   // products in the subnormal range
+    if (p.integ != MULTI && p.variant != 3 && r.chance(tier ? 0.01 : 0.004))
+    {
+        // a million lattice points in float with a distribution: the estimate is a long sum
+        p.variant = 4;
+        p.nt = NT_F;
+        p.dims = 1;
+        p.grid = 0;
+        p.aux.clear();
+        p.bins = 16;
+        p.ln = (1ULL << 20) * (1 + r.below(2));
+        p.acc = 1;
+        gen_dists(r, p, 1, false);
+        p.dists[0].bx = 4;
+        p.dists[0].two_d = 0;
+        p.dists[0].by = 1;
+        p.fmag = 0;
+    }
     p.calls.clear();
     return p;
 }
@@ -260,7 +301,8 @@ static void exec_lattice(Plan const& p, Report& rep)
             for (u64 k = 0; k != reps; ++k)
             {
                 blocks.push_back(i);
-                ctl.lat_selector.push_back(static_cast<u64>(std::ldexp(mid, 64)));
+                // (a channel whose interval is empty at the top of [0, 1) gets the largest value below one)
+                ctl.lat_selector.push_back(mid >= 1.0L ? ~0ULL : static_cast<u64>(std::ldexp(mid, 64)));
             }
         }
         for (ld a : alpha)
@@ -278,13 +320,33 @@ static void exec_lattice(Plan const& p, Report& rep)
     }
 
     std::vector<u64> const calls{N * blocks.size()};
-    bool const saved = s.check;
+    bool const big = (p.variant == 4 && p.integ != MULTI);
+    if (big)
+    {
+        ctl.log_calls = false;
+        ctl.log_text = false;
+        s.check = false;
+    }
     RunOut const out = s.run(calls, ctl);
-    (void) saved;
     if (out.threw || out.killed || out.results == 0) return;
 
     ChkptView const v = s.w->view();
     ResultView const& rv = v.results.back();
+
+    if (big)
+    {
+        // positive integrand, weights of order one: the magnitude for the tolerance is the integral
+        rep.nontrivial = true;
+        rep.probes["lattice-of-a-million-points"]++;
+        ld const tol = 256 * eps * std::fabs(exact);
+        if (!(std::fabs(rv.value - exact) <= tol))
+        {
+            rep.fail("C01", "lattice-not-exact", key, fmt(
+                "results()[k].value() = %.21Lg, exact integral %.21Lg, difference %.3Lg, tolerance %.3Lg (%llu points, with a distribution)",
+                rv.value, exact, std::fabs(rv.value - exact), tol, (unsigned long long) N));
+        }
+        return;
+    }
 
     // mean |f * w| for the tolerance, and per block means
     std::vector<ld> block_sum(blocks.size(), 0.0L);
@@ -387,6 +449,8 @@ static Plan gen_poison(Rng& r, int tier, std::string const& focus)
     }
     if (p.acc == 0 || p.dists.empty()) mask &= ~static_cast<u64>(POISON_DIST);
     if (mask == 0) mask = POISON_NAN;
+    // a huge finite value times a weight above one: the product, not a factor, is what is not finite
+    if (p.integ != PLAIN && r.chance(0.2)) mask = r.chance(0.5) ? POISON_HUGE : (mask | POISON_HUGE);
 
     if (r.chance(0.5))
     {
@@ -396,7 +460,7 @@ static Plan gen_poison(Rng& r, int tier, std::string const& focus)
         u64 const how = r.below(3);
         u64 const count = (how == 0) ? 1 : (how == 1) ? n : 1 + r.below(n);
         std::vector<int> kinds;
-        for (int k = 0; k != 5; ++k)
+        for (int k = 0; k != 6; ++k)
         {
             if (mask & (1u << k)) kinds.push_back(1 << k);
         }
@@ -554,6 +618,12 @@ static Plan gen_grid(Rng& r, int tier, std::string const&)
     static int const fk[] = {F_PEAK, F_PEAK, F_SELECT, F_LADDER, F_SPARSE, F_ZERO, F_POLY};
     p.fk = r.pick(fk);
     p.variant = r.below(4);   // 3: direct probes of vegas_point / refine with hand made data
+    if (r.chance(0.05) && p.dims <= 3)
+    {
+        // squares of the sampled values in the subnormal range of the numeric type
+        p.fmag = tiny_exponent(r, p.nt) / 2 - 4;
+        if (p.fk == F_LADDER) p.fk = F_PEAK;
+    }
     add_extreme_draws(r, p, 0.7);
     return p;
 }
@@ -676,6 +746,16 @@ static Plan gen_weights(Rng& r, int tier, std::string const&)
     static int const fk[] = {F_PEAK, F_POLY, F_SELECT, F_SELECT, F_LADDER, F_SPARSE, F_ZERO, F_SIGN};
     p.fk = r.pick(fk);
     p.variant = r.below(3);   // 2: direct probe of the refinement function
+    if (r.chance(0.05))
+    {
+        // adjustment data within a small factor of the largest finite number (sums of them overflow)
+        int const emax = (p.nt == NT_F) ? 127 : (p.nt == NT_D) ? 1023 : 16383;
+        p.fk = F_POLY;
+        p.jexp = 0;
+        for (auto& c : p.calls) c = 10 + c % 60;
+        p.fmag = (emax - 24) / 2 - static_cast<int>(r.below(3));
+        p.variant = 0;
+    }
     return p;
 }
 
